@@ -668,6 +668,9 @@ class Producer(object):
                 # Success for this topic/partition
                 d_list = deferredsByTopicPart[t_and_p]
                 _deliver_result(d_list, res)
+                # Acknowledged: a later total failure of a retry (which
+                # retries every payload still listed) must not send it again
+                payloadsByTopicPart.pop(t_and_p, None)
 
         # Were there any failed requests to possibly retry?
         if failed_payloads:
